@@ -3,7 +3,7 @@
 
    Strings are lists of UTF-8 bytes (list N). The format strings are the regenerated templates of Generated/Strings.v
    (holes kept verbatim) filled by [fmt]; four templates that the generator does not produce yet are written
-   out below as literals (section HARD-CODED TEMPLATES).
+   taken from Generated/Strings.v like the others (image_*_src).
 
    What the model covers, and how:
    * Color is restricted to the From<[u8; 4]> constructor (an [rgba] value, every component < 256). rgba2hex is applied
@@ -296,13 +296,13 @@ Definition escape_byte (b : N) : list N :=
   end.
 Definition escape_attribute (s : list N) : list N := flat_map escape_byte s.
 
-(* ---- HARD-CODED TEMPLATES (not yet produced by the generator; copied from svg.rs `image`) ---- *)
+(* ---- image templates: regenerated from svg.rs `image` by the translator (Generated/Strings.v) ---- *)
 Local Open Scope N_scope.
-Definition image_rect_square_tpl : list N := [60; 114; 101; 99; 116; 32; 120; 61; 34; 123; 48; 125; 34; 32; 121; 61; 34; 123; 49; 125; 34; 32; 119; 105; 100; 116; 104; 61; 34; 123; 50; 125; 34; 32; 104; 101; 105; 103; 104; 116; 61; 34; 123; 50; 125; 34; 32; 102; 105; 108; 108; 61; 34; 123; 51; 125; 34; 47; 62]. (* <rect x="{0}" y="{1}" width="{2}" height="{2}" fill="{3}"/> *)
-Definition image_rect_circle_tpl : list N := [60; 114; 101; 99; 116; 32; 120; 61; 34; 123; 48; 125; 34; 32; 121; 61; 34; 123; 49; 125; 34; 32; 119; 105; 100; 116; 104; 61; 34; 123; 50; 125; 34; 32; 104; 101; 105; 103; 104; 116; 61; 34; 123; 50; 125; 34; 32; 102; 105; 108; 108; 61; 34; 123; 51; 125; 34; 32; 114; 120; 61; 34; 49; 48; 48; 48; 112; 120; 34; 47; 62]. (* <rect x="{0}" y="{1}" width="{2}" height="{2}" fill="{3}" rx="1000px"/> *)
-Definition image_rect_rounded_tpl : list N := [60; 114; 101; 99; 116; 32; 120; 61; 34; 123; 48; 125; 34; 32; 121; 61; 34; 123; 49; 125; 34; 32; 119; 105; 100; 116; 104; 61; 34; 123; 50; 125; 34; 32; 104; 101; 105; 103; 104; 116; 61; 34; 123; 50; 125; 34; 32; 102; 105; 108; 108; 61; 34; 123; 51; 125; 34; 32; 114; 120; 61; 34; 49; 112; 120; 34; 47; 62]. (* <rect x="{0}" y="{1}" width="{2}" height="{2}" fill="{3}" rx="1px"/> *)
-Definition image_elem_tpl : list N := [60; 105; 109; 97; 103; 101; 32; 120; 61; 34; 123; 48; 58; 46; 50; 125; 34; 32; 121; 61; 34; 123; 49; 58; 46; 50; 125; 34; 32; 119; 105; 100; 116; 104; 61; 34; 123; 50; 58; 46; 50; 125; 34; 32; 104; 101; 105; 103; 104; 116; 61; 34; 123; 50; 58; 46; 50; 125; 34; 32; 104; 114; 101; 102; 61; 34; 123; 51; 125; 34; 32; 47; 62]. (* <image x="{0:.2}" y="{1:.2}" width="{2:.2}" height="{2:.2}" href="{3}" /> *)
-(* ---- end of HARD-CODED TEMPLATES ---- *)
+Definition image_rect_square_tpl : list N := image_rect_square_src.   (* <rect x="{0}" y="{1}" width="{2}" height="{2}" fill="{3}"/> *)
+Definition image_rect_circle_tpl : list N := image_rect_circle_src.   (* ... rx="1000px"/> *)
+Definition image_rect_rounded_tpl : list N := image_rect_rounded_src. (* ... rx="1px"/> *)
+Definition image_elem_tpl : list N := image_elem_src.   (* <image x="{0:.2}" y="{1:.2}" width="{2:.2}" height="{2:.2}" href="{3}" /> *)
+(* ---- end of image templates ---- *)
 
 Definition image_rect_tpl (s : ishape) : list N :=
   match s with
